@@ -164,7 +164,7 @@ theorem C05_constant (f : FunctionBehavior) (c : Call) (hs : f.method = c.isMeth
     (ha : f.args[i]? = some a) (hcs : a.type = .constant cs) :
     (∃ p, Problem.type i (.constant cs) p ∈ checkCall f c) ↔ s ∉ cs := by
   have hty : c.args.types[i]? = some (some (.str s)) := by
-    simp [hc, CallArgs.types, hi, getArgType, fromString_short q s hq]
+    simp [hc, CallArgs.types, hi, getArgType, Passed.fromStringToken]
   constructor
   · rintro ⟨p, h⟩
     unfold checkCall at h
@@ -196,15 +196,12 @@ theorem C05_constant (f : FunctionBehavior) (c : Call) (hs : f.method = c.isMeth
 example : (∃ p, Problem.type 0 (.constant ["collect", "count", "step"]) p ∈
     checkCall gcF (callP [.str .double "whoops"])) := by
   exact (C05_constant gcF _ rfl _ rfl 0 .double "whoops" _ _ rfl rfl rfl rfl).mpr (by decide)
-/-- FINDING (long brackets): `collectgarbage([[count]])` is reported although `count` is listed —
-`from_string` turns the token `[[count]]` into `[count]`. -/
-example : Problem.type 0 (.constant ["collect", "count", "step"]) (.str "[count]") ∈
-      checkCall gcF (callP [.str (.long 0) "count"]) ∧
-    definitelyWrong gcF (callP [.str (.long 0) "count"]) 0 = false := by decide
-
-/-- the same through the string-call sugar `collectgarbage[[count]]` -/
-example : checkCall gcF { isMethod := false, args := .string (.long 0) "count" } ≠ [] ∧
-    definitelyWrong gcF { isMethod := false, args := .string (.long 0) "count" } 0 = false := by decide
+/-- regression witness of the defect repaired in /repo (`fix: long-bracket string literals are
+compared by their contents`): `collectgarbage([[count]])` and `collectgarbage[[count]]` are accepted;
+the pre-fix `from_string` turned the token `[[count]]` into `[count]`. -/
+example : checkCall gcF (callP [.str (.long 0) "count"]) = [] ∧
+    checkCall gcF { isMethod := false, args := .string (.long 0) "count" } = [] := by decide
+example : Passed.fromString (tokenText (.long 0) "count") = .str "[count]" := by decide
 
 /-- FINDING (string arithmetic): `math.abs(-"1")` is reported as "expected number, received
 string" although `-"1"` is the number -1 in Lua. -/
